@@ -147,6 +147,7 @@ func checkProperty(prop string, tier int, tierName string, re *regexp.Regexp, cf
 			continue
 		}
 		hs := findHarnesses(l, prop, re)
+		var cfgObs []*Obligation
 		for _, fn := range hs {
 			harnessCount++
 			for d, pth := range pkgDirs {
@@ -179,11 +180,10 @@ func checkProperty(prop string, tier int, tierName string, re *regexp.Regexp, cf
 				obEngine[ob] = e
 				obCfg[ob] = cn
 			}
-			tS := time.Now()
-			solveAll(e, r.Obs, tier, timeout)
-			_ = tS
-			allObs = append(allObs, r.Obs...)
+			cfgObs = append(cfgObs, r.Obs...)
 		}
+		solveAll(e, cfgObs, tier, timeout)
+		allObs = append(allObs, cfgObs...)
 		steps += e.steps
 		feasQ += e.feasQueries
 	}
